@@ -12,6 +12,8 @@ Key grammar
     w:<n>            DictWrapper around its own dict {"k": n}   (identity hashed)
     o:<n>            Obj(guid="g<n>", label="o<n>")  (identity hashed unless the
                      tree has the guid hook, then data_id == "g<n>")
+    f:<n> / g:<n>    nutree.fs.FileSystemEntry file "f<n>.txt" / folder "g<n>"
+                     (identity hashed; only in runs with a FileSystemTree slot)
     r:<...>          objects created by a restart (re-bound by the harness)
 """
 from __future__ import annotations
@@ -97,6 +99,14 @@ class Pool:
             return self._nt.DictWrapper({"k": int(rest)})
         if flavour == "o":
             return Obj("g" + rest, "o" + rest)
+        if flavour in ("f", "g"):
+            import importlib
+
+            fs = importlib.import_module("nutree.fs")
+            if flavour == "g":
+                return fs.FileSystemEntry("g" + rest, is_dir=True)
+            n = int(rest)
+            return fs.FileSystemEntry(f"f{n}.txt", size=10 * n, mdate=1_600_000_000.5 + n)
         raise KeyError(key)
 
 
@@ -115,10 +125,22 @@ def encode_value(obj) -> dict:
         return {"type": "obj", "guid": obj.guid, "name": obj.label}
     if obj.__class__.__name__ == "DictWrapper":
         return {"type": "wrap", "v": obj._dict["k"]}
+    if obj.__class__.__name__ == "FileSystemEntry":
+        # exactly what FileSystemTree.serialize_mapper stores
+        if obj.is_dir:
+            return {"n": obj.name, "d": True}
+        return {"n": obj.name, "s": obj.size, "m": obj.mdate}
     raise TypeError(f"no codec for {type(obj)}")
 
 
 def decode_value(d: dict, nutree_mod):
+    if "type" not in d and "n" in d:
+        import importlib
+
+        fs = importlib.import_module("nutree.fs")
+        if d.get("d"):
+            return fs.FileSystemEntry(d["n"], is_dir=True)
+        return fs.FileSystemEntry(d["n"], size=d["s"], mdate=d["m"])
     t = d["type"]
     if t == "int":
         return int(d["v"])
@@ -143,6 +165,8 @@ def value_equal(a, b) -> bool:
         return a.guid == b.guid and a.label == b.label
     if a.__class__.__name__ == "DictWrapper":
         return a._dict == b._dict
+    if a.__class__.__name__ == "FileSystemEntry":
+        return (a.name, a.is_dir, a.size, a.mdate) == (b.name, b.is_dir, b.size, b.mdate)
     return a == b
 
 
@@ -157,4 +181,6 @@ def flavour_of(obj) -> str:
         return "d"
     if isinstance(obj, Obj):
         return "o"
+    if obj.__class__.__name__ == "FileSystemEntry":
+        return "f"
     return "w"
